@@ -13,13 +13,26 @@ import (
 	"github.com/ontio/ontology/smartcontract"
 )
 
+// intake: how the transaction object reaches the validator. The verdict must never depend on it.
+type intake int
+
+const (
+	intakePlain         intake = iota // decode, VerifyTransaction
+	intakeSigAddrsFirst               // decode, GetSignatureAddresses() (as txnpool preExecCheck / sender limiting does), VerifyTransaction
+	intakeVerifyTwice                 // decode, VerifyTransaction, VerifyTransaction again on the same object: same verdict
+	numIntake
+)
+
+func (i intake) String() string { return [...]string{"plain", "sigaddrs-first", "verify-twice"}[i] }
+
 type verdict struct {
-	Decoded  bool
-	Accepted bool
-	Code     ontErrors.ErrCode
-	Err      error  // decode error
-	Panic    string // non-empty when decode or validation panicked
-	Tx       *types.Transaction
+	Inconsistent string // non-empty: the same object got two different verdicts
+	Decoded      bool
+	Accepted     bool
+	Code         ontErrors.ErrCode
+	Err          error  // decode error
+	Panic        string // non-empty when decode or validation panicked
+	Tx           *types.Transaction
 }
 
 func (v verdict) String() string {
@@ -35,7 +48,9 @@ func (v verdict) String() string {
 }
 
 // runValidator: types.TransactionFromRawBytes + validation.VerifyTransaction, panics captured.
-func runValidator(raw []byte) (v verdict) {
+func runValidator(raw []byte) verdict { return runValidatorMode(raw, intakePlain) }
+
+func runValidatorMode(raw []byte, mode intake) (v verdict) {
 	defer func() {
 		if r := recover(); r != nil {
 			v.Accepted = false
@@ -48,9 +63,27 @@ func runValidator(raw []byte) (v verdict) {
 		return v
 	}
 	v.Decoded, v.Tx = true, tx
+	if mode == intakeSigAddrsFirst {
+		_ = tx.GetSignatureAddresses()
+	}
 	v.Code = validation.VerifyTransaction(tx)
 	v.Accepted = v.Code == ontErrors.ErrNoError
+	if mode == intakeVerifyTwice {
+		if c2 := validation.VerifyTransaction(tx); c2 != v.Code {
+			v.Inconsistent = fmt.Sprintf("first VerifyTransaction returned code %d, the second one on the same object code %d", v.Code, c2)
+		}
+	}
 	return v
+}
+
+// reverify runs the validator again on an object that was validated before (panics captured).
+func reverify(tx *types.Transaction) (accepted bool, pan string) {
+	defer func() {
+		if r := recover(); r != nil {
+			accepted, pan = false, fmt.Sprint(r)
+		}
+	}()
+	return validation.VerifyTransaction(tx) == ontErrors.ErrNoError, ""
 }
 
 func sortedAddrs(in []common.Address) []common.Address {
